@@ -28,9 +28,10 @@ type Profile struct {
 var famSib = []string{"lib/a", "lib/b", "lib.go", "lib-old", "lib0", "a", "test/x", "test/y", "test.c", "test-data", "test0"}
 var famNest = []string{"d/e/x", "d/e.x", "d/f", "g", "d/e/y/z", "d-o", "d.c", "d0", "ad/x", "da"}
 var famOdd = []string{"a b/c d", "p+q", "x(1)", "é/ü", "a.b/c", "my file.txt", "d x", "d x/y", "_u/v_", "日本/語.txt", "a[1]", "q*", "w?"}
+var famExt = []string{"src/a", "src/b", "src.c", "src-old", "src0", "src_x", "src2/c", "srcs", "src/sub/d", "src/sub.e"}
 var famIgn = []string{"f", "build/o", "sub/build/o", "rebuild/o", "a.exe", "a.exe.txt", "x.goit/f", "sub/.goit/f", ".goitx", "b.exe/z", "sub/c.exe"}
 var defaultBranches = []string{"main", "a", "ab", "b", "a-b", "a.b", "Z", "dev", "x_1"}
-var defaultMsgs = []string{"first", "fix: thing", "a\tb", "two\nlines here now", "subject\n\nbody: with colon\nmore words in line", " padded ", "héllo wörld", "x: y: z", "m", "line one\nline two"}
+var defaultMsgs = []string{"quote\nparent @ANC1@\ntree @TREE@", "revert\n\nparent @HEAD@", "first", "fix: thing", "a\tb", "two\nlines here now", "subject\n\nbody: with colon\nmore words in line", " padded ", "héllo wörld", "x: y: z", "m", "line one\nline two"}
 
 func weightsDefault() map[string]int {
 	return map[string]int{"write": 14, "remove": 4, "rmdir": 2, "touch": 2, "rewrite": 2, "add": 14, "rm": 4, "commit": 9, "restore": 4, "restores": 4,
@@ -109,6 +110,23 @@ func (p *Profile) genEvent(rng *rand.Rand, tr *Trace) M {
 	allKnown := append(append([]string{}, wtFiles...), tracked...)
 	dirs := dirsOf(allKnown)
 	hostile := func() bool { return rng.Intn(100) < p.Hostile }
+	// tracked directories with at least two tracked paths beneath them (interesting for directory operations)
+	var bigDirs []string
+	{
+		cnt := map[string]int{}
+		for _, t := range tracked {
+			parts := strings.Split(t, "/")
+			for i := 1; i < len(parts); i++ {
+				cnt[strings.Join(parts[:i], "/")]++
+			}
+		}
+		for d, n := range cnt {
+			if n >= 2 {
+				bigDirs = append(bigDirs, d)
+			}
+		}
+		sort.Strings(bigDirs)
+	}
 	pathArgs := func(pool []string, withDirs bool) []any {
 		n := 1
 		if rng.Intn(4) == 0 {
@@ -120,6 +138,8 @@ func (p *Profile) genEvent(rng *rand.Rand, tr *Trace) M {
 			switch {
 			case hostile():
 				s = hostilePaths[rng.Intn(len(hostilePaths))]
+			case withDirs && len(bigDirs) > 0 && rng.Intn(4) == 0:
+				s = bigDirs[rng.Intn(len(bigDirs))]
 			case withDirs && len(dirs) > 0 && rng.Intn(3) == 0:
 				s = dirs[rng.Intn(len(dirs))]
 			default:
@@ -199,7 +219,23 @@ func (p *Profile) genEvent(rng *rand.Rand, tr *Trace) M {
 	case "restores":
 		return M{"ev": "restores", "paths": pathArgs(allKnown, true)}
 	case "commit":
-		return M{"ev": "commit", "msg": EscS(p.Msgs[rng.Intn(len(p.Msgs))])}
+		msg := p.Msgs[rng.Intn(len(p.Msgs))]
+		if strings.Contains(msg, "@") {
+			// messages that quote ids of existing objects (header-like lines inside the message)
+			anc := headId(st)
+			if o := objOf(tr.R.T, st, anc); o != nil && o["k"] == "commit" && len(o["parents"].([]any)) > 0 {
+				anc = o["parents"].([]any)[0].(string)
+			}
+			tree := ""
+			if o := objOf(tr.R.T, st, headId(st)); o != nil && o["k"] == "commit" {
+				tree = o["tree"].(string)
+			}
+			if headId(st) == "" {
+				msg = "plain instead"
+			}
+			msg = strings.ReplaceAll(strings.ReplaceAll(strings.ReplaceAll(msg, "@HEAD@", headId(st)), "@ANC1@", anc), "@TREE@", tree)
+		}
+		return M{"ev": "commit", "msg": EscS(msg)}
 	case "reset":
 		mode := []string{"soft", "mixed", "hard", "default"}[rng.Intn(4)]
 		n := rng.Intn(len(st["hlog"].([]any)) + 2)
